@@ -64,7 +64,7 @@ def gen_cases(rng, tier, names=None, per=None):
             ins, regime, _ = make_inputs(rng, name, n, REGIMES[(j // 2) % len(REGIMES)] if j % 2 else None)
             cases.append((name, ns, fs, ins, regime))
         # every indicator meets the cancellation-prone regimes on a series comfortably longer than its warm-up
-        for regime in ('offset', 'outlier', 'ties'):
+        for regime in ('offset', 'outlier', 'ties', 'anyorder', 'anyorder'):
             ns, fs = cfg(rng, hi)
             ns, fs = list(ns), list(fs)
             w = idle_of(name, ns)
